@@ -662,3 +662,17 @@ func (f *Func) insideLoop(n ast.Node) bool {
 		return false
 	}) != nil
 }
+
+// isTypeSwitchVar: obj is the variable a type switch binds in one of its clauses (`switch v := x.(type) { case T: … v … }`).
+func (f *Func) isTypeSwitchVar(obj types.Object) bool {
+	found := false
+	ast.Inspect(f.Body, func(n ast.Node) bool {
+		if cc, ok := n.(*ast.CaseClause); ok {
+			if o := f.Info().Implicits[cc]; o != nil && o == obj {
+				found = true
+			}
+		}
+		return !found
+	})
+	return found
+}
